@@ -66,14 +66,14 @@ func (w *World) isVee(id int) bool {
 }
 
 // Computed (method backed) fields. Their GraphQL names are the lower case method names.
-func (s *Slots) Echo(str string) string          { return "echo:" + str }
-func (s *Slots) Pick(str string, b bool) string  { return str + ":" + strconv.FormatBool(b) }
-func (s *Slots) Greet() string                   { return "hi:" + s.Str }
-func (s *Slots) Flip(b bool) bool                { return !b }
-func (s *Slots) Swap(b bool, str string) string  { return str + "/" + strconv.FormatBool(b) }
-func (s *Slots) Peer() interface{}               { return s.Obj }
-func (s *Slots) Peers() []interface{}            { return s.Objs }
-func (s *Slots) Count() (int, error)             { return len(s.Objs), nil }
+func (s *Slots) Echo(str string) string         { return "echo:" + str }
+func (s *Slots) Pick(str string, b bool) string { return str + ":" + strconv.FormatBool(b) }
+func (s *Slots) Greet() string                  { return "hi:" + s.Str }
+func (s *Slots) Flip(b bool) bool               { return !b }
+func (s *Slots) Swap(b bool, str string) string { return str + "/" + strconv.FormatBool(b) }
+func (s *Slots) Peer() interface{}              { return s.Obj }
+func (s *Slots) Peers() []interface{}           { return s.Objs }
+func (s *Slots) Count() (int, error)            { return len(s.Objs), nil }
 
 // Risky fails depending on its argument: "fail..." gives no value and an error, "both..." a value
 // together with an error. It is what lets a reflection backed object fail like a Resolver can.
